@@ -21,7 +21,8 @@ LEVEL_TEXT = ("Streams of 1-6 message/junk lines (LF and CRLF; ASCII, 2/3/4-byte
               "multi-byte character or terminator (k=3), in bytes and str chunk modes, and fed to the real reader; the "
               "delivered transcript must equal the reference framing of the whole stream and the single-chunk transcript. "
               "Thorough adds all cut pairs on bounded streams, seeded cuts on 200 KiB streams and a real child process "
-              "writing the pieces with pauses (boundaries that fell inside a character are counted).")
+              "writing the pieces with pauses (boundaries that fell inside a character are counted)."
+              " Also several clients in one process (alive together, one after the other, overlapping; reads interleaved; earlier ones ending mid-line): each must frame exactly its own child's bytes.")
 LEVEL_NOTE = ("Trusted: the ScriptedProcess stand-in yields exactly the chosen chunks; reference framing = split whole "
               "stream on LF, UTF-8 decode, strip, json.loads, independent JSON-RPC validator. Lines with a missing/non-2.0 "
               "jsonrpc member may be delivered or dropped (the library's own tests pin leniency there).")
